@@ -269,6 +269,34 @@ Theorem C17_reparse_same_text : forall parser ser h s t edits ts',
 Proof. exact c17_reparse_same_text. Qed.
 Print Assumptions C17_reparse_same_text.
 
+(* A CALL THAT RAISES LEAVES NOTHING BEHIND.  A call raises when the parser refuses the octets (not well-formed, too
+   large for the parser variant) or the helper raises without the parser's refusal (RRaised: the text cannot be encoded
+   / the root does not meet validated_element's requirement).  Such a call is the identity on the process ... *)
+Theorem C17_reparse_raise_step : forall parser ser ts op,
+  rraises parser op = true -> rstep parser ser ts op = Some ts.
+Proof. exact c17_reparse_raise_step. Qed.
+Print Assumptions C17_reparse_raise_step.
+
+(* ... so the calls that raised can be struck out of any history: the same trees come out *)
+Theorem C17_reparse_raise_erase : forall parser ser ops ts,
+  rrun parser ser ts ops = rrun parser ser ts (filter (fun op => negb (rraises parser op)) ops).
+Proof. exact c17_reparse_raise_erase. Qed.
+Print Assumptions C17_reparse_raise_erase.
+
+(* ... after any raising calls the next parse is the parse of a fresh process *)
+Theorem C17_reparse_after_raises : forall parser ser bad h s,
+  Forall (fun op => rraises parser op = true) bad ->
+  rrun parser ser [] (bad ++ [RParse h s]) = rrun parser ser [] [RParse h s].
+Proof. exact c17_reparse_after_raises. Qed.
+Print Assumptions C17_reparse_after_raises.
+
+(* ... and in the middle of a history the later calls do not see them *)
+Theorem C17_reparse_raises_between : forall parser ser ops1 bad ops2 ts,
+  Forall (fun op => rraises parser op = true) bad ->
+  rrun parser ser ts (ops1 ++ bad ++ ops2) = rrun parser ser ts (ops1 ++ ops2).
+Proof. exact c17_reparse_raises_between. Qed.
+Print Assumptions C17_reparse_raises_between.
+
 (* the trees-after-every-call trace the runner reports is the run *)
 Theorem C17_reparse_trace : forall parser ser ops ts ts',
   rrun parser ser ts ops = Some ts' ->
@@ -418,3 +446,14 @@ Example C17_ex_reparse :
     Some [ex_rp_edited; ex_rp_doc; ex_rp_doc] /\
   rown ex_rp_parser 1 0 (RParse true ex_rp_text :: edits ++ [RParse true ex_rp_text]) = [EParse true ex_rp_text].
 Proof. split; [repeat constructor|]. vm_compute. split; reflexivity. Qed.
+
+(* three calls that raise (the parser refuses "<a>"; a text with a lone surrogate; a requirement not met), between and
+   before good parses: the hypotheses of C17_reparse_after_raises / _raises_between hold, and the trees are the readings *)
+Example C17_ex_reparse_raises :
+  let bad := [RParse true (lit "<a>"); RRaised true [60; 97; 62; 237; 178; 128]; RRaised false ex_rp_text] in
+  Forall (fun op => rraises ex_rp_parser op = true) bad /\
+  rraises ex_rp_parser (RParse true ex_rp_text) = false /\
+  rrun ex_rp_parser ex_ser [] (bad ++ [RParse true ex_rp_text]) = Some [ex_rp_doc] /\
+  rrun ex_rp_parser ex_ser [] (RParse true ex_rp_text :: RCaller 0 ex_rp_edited :: bad ++ [RParse true ex_rp_text; RParse false ex_rp_text]) =
+    Some [ex_rp_edited; ex_rp_doc; ex_rp_doc].
+Proof. split; [repeat constructor|]. vm_compute. repeat split; reflexivity. Qed.
